@@ -593,6 +593,90 @@ func (se *specEnv) call(n *ast.CallExpr) specVal {
 			se.x.useSetLib()
 			s := se.rval(se.eval(n.Args[0])).(Term)
 			return specVal{V: app(SInt, "card", s), T: untypedInt}
+		case "lam":
+			// lam(k, e): the array A with A[k] == e for every k (a fresh array with its definition)
+			id, ok := n.Args[0].(*ast.Ident)
+			if !ok {
+				se.fail("lam: first argument must be an identifier")
+			}
+			*se.nq++
+			qv := Term{fmt.Sprintf("%s!q%d", id.Name, *se.nq), SInt}
+			sub := se.sub()
+			sub.vars = map[string]specVal{}
+			for k, v := range se.vars {
+				sub.vars[k] = v
+			}
+			sub.vars[id.Name] = specVal{V: qv, T: types.Typ[types.Uint64]}
+			tmpCur := &State{heap: se.cur.heap, epoch: se.cur.epoch, cells: se.cur.cells, W: se.cur.W, pcSet: map[string]bool{}}
+			nn := sub.sub()
+			if se.st == se.cur {
+				nn.st = tmpCur
+			}
+			nn.cur = tmpCur
+			body, okT := nn.rval(nn.eval(n.Args[1])).(Term)
+			if !okT {
+				se.fail("lam: body must be a scalar")
+			}
+			ckey := strings.ReplaceAll(body.S, qv.S, "?") + "|" + string(body.Sort)
+			if cached, ok := se.x.ctx.lamCache[ckey]; ok {
+				// same definition: same array (its defining axiom is re-assumed for this state)
+				se.cur.assume(Forall([]Term{qv}, Eq(Select(cached, qv), body)))
+				return specVal{V: cached, T: &ghostArrayT{Type: untypedInt, elem: body.Sort}}
+			}
+			arr := se.x.ctx.fresh("lam", ArrSort(SInt, body.Sort))
+			se.x.ctx.lamCache[ckey] = arr
+			var local []Term
+			for _, a := range tmpCur.pc {
+				if strings.Contains(a.S, qv.S) {
+					local = append(local, a)
+				} else {
+					se.cur.assume(a)
+				}
+			}
+			if len(local) > 0 {
+				se.cur.assume(Forall([]Term{qv}, And(local...)))
+			}
+			def := Forall([]Term{qv}, Eq(Select(arr, qv), body))
+			se.cur.assume(def)
+			return specVal{V: arr, T: &ghostArrayT{Type: untypedInt, elem: body.Sort}}
+		case "cntge":
+			se.x.useCountLib()
+			var args []Term
+			for _, a := range n.Args {
+				args = append(args, se.rval(se.eval(a)).(Term))
+			}
+			if len(args) != 4 {
+				se.fail("cntge(V, M, S, v)")
+			}
+			return specVal{V: app(SInt, "cntge", args...), T: untypedInt}
+		case "scge":
+			// scge(slice, n, v): number of the first n elements of the slice that are >= v
+			se.x.useCountLib()
+			a := se.eval(n.Args[0])
+			sv, ok := se.rval(a).(*SliceV)
+			if !ok {
+				se.fail("scge needs a slice")
+			}
+			et := a.T.Underlying().(*types.Slice).Elem()
+			h := se.x.getHeapIn(se.st, elemKey(et, ""), ArrSort(SInt, ArrSort(SInt, SInt)))
+			cnt := se.evalInt(n.Args[1])
+			v := se.evalInt(n.Args[2])
+			return specVal{V: app(SInt, "scge", Select(h, sv.Arr), sv.Off, Add(sv.Off, cnt), v), T: untypedInt}
+		case "as":
+			// as(i, T): the value of concrete type T held by interface value i
+			a := se.eval(n.Args[0])
+			iv, ok := se.rval(a).(*IfaceV)
+			if !ok {
+				se.fail("as() needs an interface value")
+			}
+			t := se.resolveType(exprString(n.Args[1]))
+			if t == nil {
+				se.fail("as(): unknown type %s", exprString(n.Args[1]))
+			}
+			tmp := se.scratch()
+			v := se.x.unbox(tmp, iv.Pay, t)
+			se.merge(tmp)
+			return specVal{V: v, T: t}
 		case "subset":
 			a, b := se.rval(se.eval(n.Args[0])).(Term), se.rval(se.eval(n.Args[1])).(Term)
 			*se.nq++
